@@ -27,7 +27,7 @@ type zsCfg struct {
 
 func zsCfgs() []zsCfg {
 	var out []zsCfg
-	for _, pq := range [][2]*big.Int{{bi(5), bi(7)}, {bi(11), bi(13)}, {bi(29), bi(31)}, {p64a, p64b}} {
+	for _, pq := range [][2]*big.Int{{bi(5), bi(7)}, {bi(11), bi(13)}, {bi(17), bi(19)}, {p64a, p64b}} {
 		for _, known := range []bool{true, false} {
 			out = append(out, zsCfg{fmt.Sprintf("RSA(%s,%s,known=%v)", show(pq[0]), show(pq[1]), known), pq[0], pq[1], false, known})
 		}
@@ -256,6 +256,9 @@ func zsRun[E zsOps[E]](x *engine.X, cfg zsCfg, g zsGroup[E], n, amb *big.Int, va
 		}
 		for j, b := range units {
 			bv := unitVals[j]
+			if !cfg.known && len(units) > 300 && bv.Cmp(bi(64)) > 0 {
+				continue // unknown-order view of the large exhaustive group: second operands <= 64 only (the arithmetic is numct.Modulus, covered above)
+			}
 			dd := func(op string) func() string {
 				return func() string { return fmt.Sprintf("%s: el(%s).%s(el(%s))", cfg.name, show(av), op, show(bv)) }
 			}
